@@ -937,6 +937,7 @@ class Runner:
         ans = self.drv.ask(case.request(pats, is_case, is_re, fast, filt))
         if "error" in ans:
             raise RuntimeError("driver: %s" % ans["error"])
+        self.last_reach = ans.get("reach", {})
         return st, (sorted(got) if st == "ok" else got), sorted(ans["out"]), sorted(ans["spec"]), ans["hyp"]
 
     def check(self, case, pats, is_case, is_re, fast, filt, report=True):
@@ -945,6 +946,10 @@ class Runner:
         if st != "ok":
             return ("raise", ["%s.raises_%s" % (case.fn, got)], {"raised": got, "model": out})
         self.res.dist("hyp:%s" % hyp)
+        # reach of the headline theorems on this very query (driver-evaluated hypotheses); evidence only,
+        # no verdict depends on these counters
+        for th, verdict in getattr(self, "last_reach", {}).items():
+            self.res.dist("theorem_fragment:%s:%s" % (th, "in" if verdict == "in" else "out:" + verdict))
         cf = case.cfg(is_case, is_re, fast)
         if cf["indexed"]:
             self.res.dist("lookup:indexed" + ("+case_insensitive" if cf["ci"] else ""))
